@@ -98,7 +98,7 @@ def predicate(c):
     if not r:
         return [("C11-empty-result", "harness produced no result")]
     for cls, _ in r:
-        if kind(cls) in ("panic", "hang") and "framing" not in f and "split" not in f and "trunc2" not in f:
+        if kind(cls) in ("panic", "hang") and "framing" not in f and "split" not in f and "trunc2" not in f and "stall" not in f:
             bad.append(("C17-panic-or-hang", f"operation outcome {cls}"))
     op = f.get("op", "")
     if "cross" in f:
@@ -154,6 +154,21 @@ def predicate(c):
         for kk in ks:
             if kk in ("hang", "panic"):
                 bad.append(("C17-panic-or-hang", "operation outcome " + kk))
+        return bad
+    if "stall" in f:
+        # C17 "never blocks beyond its deadline": the peer goes silent after k bytes; a deadline
+        # governs the exchange (the harness only generates such configurations): the call must
+        # return (an error) before the 3 s watchdog and the Conn must be closed
+        ks = [kind(x) for x, _ in r]
+        if ks[0] in ("hang", "notrun"):
+            if ks[0] == "hang":
+                bad.append(("C17-stall-blocks-beyond-deadline",
+                            f"{f.get('kind')} {op} with only deadline config '{f.get('cfg')}' (a=SetDeadline r=SetReadDeadline w=SetWriteDeadline, 150 ms): "
+                            f"the peer went silent after {f.get('k')} bytes and the call had not returned after 3 s (20x the deadline); the Conn was not closed"))
+        elif ks[0] in ("ok", "kafka") or r[0][1] != "1":
+            bad.append(("C17-stall-outcome", f"{op} cfg={f.get('cfg')} k={f.get('k')}: {r[0][0][:50]}~{r[0][1]}"))
+        elif any(k in ("ok", "kafka") for k in ks[1:]):
+            bad.append(("C17-conn-used-after-stall", c["go"][:120]))
         return bad
     if "trunc2" in f:
         return trunc2_predicate(c, f, r, op)
@@ -481,6 +496,13 @@ def run_cases(ctx):
     if rc != 0:
         raise L.Fail("correspondence", "harness cmd/c11 -run crashed", (out2[-1500:] + err2[-2500:]))
     cases += L.parse_cases(out2)
+    # timing-class verdicts: a stall case that hit the watchdog is re-run alone before it counts
+    hung = [c for c in cases if "stall" in feats_of(c) and "hang~" in c["go"]][:6]
+    for c in hung:
+        rc, o, e, _ = L.sh([gobin, "-run"], input=c["line"] + " | | " + c["feats"] + "\n", timeout=60)
+        again = L.parse_cases(o)
+        if rc == 0 and again:
+            c["go"] = again[0]["go"]
     res = L.run_model(model, "\n".join(c["line"] for c in cases) + "\n")
     add_baselines(gobin, cases)
     return cases, res
@@ -540,11 +562,11 @@ def evaluate(cases, res, want):
     ev, dn, hist = L.coverage_counts(sel, trivial_feats=("",))
     # non-trivial: an error code other than 0, or a cut
     dn = len({c["line"] for c in sel if ("cut" in feats_of(c)) or ("drain" in feats_of(c) and not c["args"].endswith(" -"))
-              or feats_of(c).get("code", "0") not in ("0", True) or "cross" in feats_of(c) or "framing" in feats_of(c) or "nego" in feats_of(c) or "reads" in feats_of(c) or "readcut" in feats_of(c) or "comp" in feats_of(c) or "split" in feats_of(c) or "trunc2" in feats_of(c) or ("msgcut" in feats_of(c) and not c["args"].endswith(" -"))})
+              or feats_of(c).get("code", "0") not in ("0", True) or "cross" in feats_of(c) or "framing" in feats_of(c) or "nego" in feats_of(c) or "reads" in feats_of(c) or "readcut" in feats_of(c) or "comp" in feats_of(c) or "split" in feats_of(c) or "trunc2" in feats_of(c) or "stall" in feats_of(c) or ("msgcut" in feats_of(c) and not c["args"].endswith(" -"))})
     hist = {}
     for c in sel:
         f = feats_of(c)
-        for k in ("op", "field", "code", "cutpos", "msgset", "kind", "cap", "list", "cutrel", "codec", "layout", "mode", "nwhole", "hdr"):
+        for k in ("op", "field", "code", "cutpos", "msgset", "kind", "cap", "list", "cutrel", "codec", "layout", "mode", "nwhole", "hdr", "cfg"):
             if k in f:
                 hist[f"{k}={f[k]}"] = hist.get(f"{k}={f[k]}", 0) + 1
     return dict(evaluations=ev, distinct_nontrivial=dn, hist=hist, failures=failures, notes=notes, sel=sel)
@@ -577,7 +599,10 @@ RULE = ("PART A (exhaustive, no randomness in the structure): every (operation, 
         "Batch.ReadMessage x2 + Close over every cut position of small magic-0/1/2 fetch v2/v5/v10 responses.  PART J: the fetch response "
         "delivered in two pieces at every byte position, with and without the following responses already queued.  PART K: complete fetch "
         "frames whose magic-2 batch is truncated by the broker at every byte of its last record (0..3 whole records before it, with / "
-        "without record headers), read by ReadMessage / Read / Conn.ReadMessage / Conn.Read, next responses queued or not.")
+        "without record headers), read by ReadMessage / Read / Conn.ReadMessage / Conn.Read, next responses queued or not.  PART L (stall): the peer goes SILENT "
+        "after k bytes (no EOF) under SetDeadline / SetReadDeadline only / SetWriteDeadline only (150 ms), for every operation under the "
+        "deadline of its side and for the implicit ApiVersions negotiation of a first call under all three: the call must return a timeout "
+        "error within the 3 s watchdog and the Conn must be closed; expectation from the model's deadline_of; a hang is re-run in isolation.")
 
 
 def correspondence(ctx):
@@ -605,7 +630,7 @@ def correspondence(ctx):
 def conn_cut_cases(ctx):
     """The truncation cases only (Conn half of C17), same dict shape as correspondence()."""
     cases, res = run_cases(ctx)
-    ev = evaluate(cases, res, lambda f: "cut" in f or "drain" in f or "readcut" in f or "msgcut" in f)
+    ev = evaluate(cases, res, lambda f: "cut" in f or "drain" in f or "readcut" in f or "msgcut" in f or "stall" in f)
     sel = ev["sel"]
     samples = [c["line"][:260] + " | " + c["go"][:120] + " | " + c["feats"] for c in (sel[:2] + sel[len(sel)//2:len(sel)//2+2] + sel[-2:])]
     return dict(evaluations=ev["evaluations"], distinct_nontrivial=ev["distinct_nontrivial"], hist=ev["hist"],
